@@ -179,20 +179,21 @@ def run(chk):
             reorder = it
     ok = False
     if reorder is not None:
-        body = " ".join(norm(s) for s in reorder.body)
+        rbody = [s_.node if isinstance(s_, Cond) else s_ for s_ in reorder.body]
+        body = " ".join(norm(s) for s in rbody)
         # structural: a loop over the left names looks each one up in the right cache; the right child is wrapped in a
         # Select over the collected columns and compiled again
         left_names = norm(reorder.test.left)
-        loops = [n for s_ in reorder.body for n in ast.walk(s_) if isinstance(n, ast.For) and norm(n.iter) == left_names]
+        loops = [n for s_ in rbody for n in ast.walk(s_) if isinstance(n, ast.For) and norm(n.iter) == left_names]
         by_name = any(
             isinstance(x, ast.Subscript) and norm(x.value).endswith("name_to_uuid") and norm(x.slice) == norm(lp.target)
             for lp in loops for x in ast.walk(lp)
         )
-        sel = [c for s_ in reorder.body for c in calls_in(s_) if (dotted(c.func) or "").endswith("Select") and c.args and norm(c.args[0]).endswith(".right")]
-        recompiled = any((dotted(c.func) or "").endswith("compile_ast") for s_ in reorder.body for c in calls_in(s_))
+        sel = [c for s_ in rbody for c in calls_in(s_) if (dotted(c.func) or "").endswith("Select") and c.args and norm(c.args[0]).endswith(".right")]
+        recompiled = any((dotted(c.func) or "").endswith("compile_ast") for s_ in rbody for c in calls_in(s_))
         rebound = any(
             isinstance(s_, ast.Assign) and isinstance(s_.targets[0], ast.Tuple) and [norm(e) for e in s_.targets[0].elts][:2] == ["right_table", "right_query"]
-            for s_ in reorder.body
+            for s_ in rbody
         )
         ok = bool(loops) and by_name and bool(sel) and recompiled and rebound
     chk.ob("R1", sql, scfg.func, "sql Union: if the name lists differ the right side is re-selected in the order of the left names", ok or sql_union_decided,
